@@ -113,9 +113,26 @@ def gen_case(rng, tier, big=False):
             'seed': rng.randrange(10 ** 6)}
 
 
+def gen_big(rng, tier):
+    """one recorded case larger than SQLite's page cache (2 MB): its transaction spills to the database file
+    before COMMIT, so a death between the INSERT and the COMMIT leaves a hot journal that the reader has to roll
+    back; the process is really killed at each of those boundaries"""
+    spec = kmodels.gen_spec(rng, ncomp=(1, 1), sizes=(1,), groups=False, implicit=False, promote=False)
+    big = 100000
+    for c in spec['comps']:
+        c['n'] = big
+    spec['init'] = {k: 2.3 for k in spec['init']}      # 17 significant digits per number in the JSON text
+    return {'spec': spec, 'driver': {'type': 'none'}, 'runs': ['driver', 'driver'], 'nfiles': 1,
+            'attach': {'problem': None, 'driver': 0, 'systems': {}, 'solvers': {}}, 'record_derivatives': False,
+            'viewer': False, 'real_kills': 4, 'kill_inside_txn': 4, 'sigkills': 2 if tier == 'quick' else 8,
+            'seed': rng.randrange(10 ** 6), 'big': True}
+
+
 def gen(tier, rng):
     n = 20 if tier == 'quick' else 200
-    return [gen_case(rng, tier, big=(tier != 'quick')) for _ in range(n)]
+    out = [gen_case(rng, tier, big=(tier != 'quick')) for _ in range(n)]
+    rb = random.Random(rng.randrange(10 ** 9))
+    return [gen_big(rb, tier) for _ in range(1 if tier == 'quick' else 3)] + out
 
 
 RULE = ('generated recorded runs (models of 1-3 components, optional groups/coupling; run_model / DOEDriver / '
@@ -180,6 +197,7 @@ def run_cases(v, wd, cases, tag, compare=True):
         return False
     got, want, idx = [], [], []
     tot = {'crash_points': 0, 'prestart': 0, 'sigkill': 0, 'real_kills': 0, 'nstmt': 0, 'distinct_file_states': 0,
+           'hot_journals': 0, 'hot_journals_real_kill': 0,
            'cases_listed': 0}
     for i, (c, r) in enumerate(zip(cases, results)):
         st = r.get('stats', {})
